@@ -1,10 +1,10 @@
 PROP = dict(
-  units=['vhm_bs', 'vhm', 'cxxstatic:vhm'],
+  units=['vhm_bs', 'vhm', 'vhm_it:find,erase_b0,erase_b1,deref', 'cxxstatic:vhm'],    # find(key) and erase(find(key)) are map operations of the C10 statement; their contracts live in unit vhm_it
   level='other',
   obligations=['vhm.bs.*', 'vhm.emplace.iff_absent', 'vhm.emplace.pool', 'vhm.emplace.publish_order', 'vhm.grow.publish_order', 'vhm.emplace.retry_state', 'vhm.extract.iff_present', 'vhm.extract.pool',
                'vhm.erase.retires_only_removed', 'vhm.ops.unlock', 'vhm.ops.frame', 'vhm.remove.version_bumped', 'vhm.alloc_ext.pops_free', 'vhm.free_ext.own_bucket',
                'vhm.lock_bucket.acquired', 'vhm.grow.resize_lock', 'vhm.grow.conserves', 'vhm.get.validated', 'vhm.get.absent_validated', 'vhm.get.terminates',
-               'vhm.get.seq_lookup', 'vhm.acc.names_item', 'vhm.sync.release', 'vhm.sync.acquire', 'static.vhm.no_use_after_move'],
+               'vhm.get.seq_lookup', 'vhm.acc.names_item', 'vhm.it.find.position', 'vhm.it.erase.exact', 'vhm.it.erase.version_bumped', 'vhm.it.deref.current', 'vhm.sync.release', 'vhm.sync.acquire', 'static.vhm.no_use_after_move'],
   explanation='bucket_state algebra for all 2^32 states; per-bucket map refinement of do_get_or_emplace / do_extract / erase / extract / do_grow / extension-item pool on the extracted text in '
               'all five storage modes, each with the real text of its vyukov_hash_map_traits specialisation (trivial; non-trivial key+value in a node with symbolic, adversarially colliding hashes; trivial key with the value in a node; managed_ptr value with a trivial key; managed_ptr value with the key in a node), including what erase (retires node and Value object) and extract (retires the node only) hand to the reclaimer; the writer guarantee "every removal or move is published by a version bump / delete marker" '
               '(vhm.remove.version_bumped) is proved for the writers and is exactly the rely under which the lock-free reader try_get_value is verified in INT mode. Cross-bucket/thread linearizability is the assumed lemma.',
